@@ -414,7 +414,7 @@ func c12GenExt(r *Rand, tier string) []string {
 			lines = append(lines, c12GenLine(r, p, ic))
 		}
 		rep := 1 + r.Intn(3)
-		if tier == "thorough" && r.Chance(1, 25) {
+		if tier == "thorough" && r.Chance(1, 50) {
 			rep = 1100/nl + 1 // every goroutine's pool is refilled (quick: the corpus case does that)
 		}
 		out = append(out, fmt.Sprintf("par %s %s %s %d %d", icS, HexS(p.render()), HexList(lines), rep, 2+r.Intn(4)))
